@@ -24,6 +24,18 @@ CHECKS = {
          "TLC exhaustively explores the set-operator model GenSets (every subset of 3 keys per operand, 2-4 operands in every order, conflicting measures, chained statements) and checks algebraic laws and well-formedness in every state; every explored transition is a candidate test of run() (B1, seeded sample in the quick tier) and random larger inputs are validated by the trace specification VTLOperators_Trace (B2).",
          "Numbers compared with 1e-6 relative tolerance.",
          "TLA+ executable semantics, TLC enumeration replayed into run(), TLC trace validation"),
+ 'C10': ('model_checking',
+         "Every successful run made by the random drivers of all modelled operator families and of a sample (thorough: all) of the ~1260 upstream corpus scripts is recorded as one event holding the structures semantic_analysis() predicts and the structures, column order and typed values run() returns; TLC validates each event against VTLStruct_Trace: same result names, components (names, roles, types, nullability, order), column order, every value of its component's type, identifiers non-null and unique, non-nullable components never null, at most one datapoint without identifiers. The machine invariant Closure (everything the abstract statement machine stores is WellFormed) is checked by TLC in the generation models of C01-C05.",
+         "For scripts outside the modelled subset the oracle of the structure is semantic_analysis() itself, exactly as the property states. Temporal values are recognised by the documented output patterns; at most 400 datapoints per result are validated.",
+         "TLC trace validation of recorded (predicted structure, returned result) events + machine invariant Closure"),
+ 'C15': ('model_checking',
+         "The specification has no notion of threads, storage or memory: one abstract step must explain EVERY observation. Random units of all modelled families are observed under the configuration grid VTL_THREADS x VTL_USE_IN_MEMORY_DB x VTL_MEMORY_LIMIT (quick: 3 configurations, thorough: 16, repeated) and each observation is validated by TLC (VTLOperators_Trace); units replicated into blocks up to 10^5 (thorough 10^6) datapoints must give equal blocks and one block is validated by TLC; corpus scripts are run under every configuration and the outcomes compared as sets (VTLOrder_Trace group agreement).",
+         "Runs that do not complete under VTL_MEMORY_LIMIT=64MB are excluded as the property allows. Block replication covers operators acting within a block. TLC sees the per-block projection, not the million rows.",
+         "TLC trace validation of the same abstract step under every engine configuration + block replication"),
+ 'C33': ('model_checking',
+         "Datasets are SETS of datapoints in the specification, so one spec step must accept every physical presentation of the same input. Every random unit (element-wise, clause chains, aggregations, set operators) is observed under 6 (thorough 20-24) row and column permutations cycling through DataFrame(native dtypes), DataFrame(strings), CSV and Parquet, and every observation is validated by TLC (VTLOperators_Trace); corpus scripts (no current_date, no analytic invocation) are run with shuffled CSV rows and columns and the outcomes must agree (VTLOrder_Trace).",
+         "Analytic functions with ties and current_date are excluded as the property states; analytic invocations with total orders are permuted in C06.",
+         "TLC trace validation of permuted / re-encoded observations of one abstract step"),
  'C12': ('model_checking',
          "TLC explores every dependency structure on 3 (thorough: 4) statements, cycles included, under every textual order and checks Confluence and Completion of the abstract statement machine; sampled scripts are replayed under all permutations through semantic_analysis() and run(), and every group of observations is validated by VTLOrder_Trace (expected outcome from the spec: ok / 1-3-2-3 / 1-2-2, agreement of result digests); returned values are validated against the script's denotation by VTLOperators_Trace; corpus scripts are split into statements and permuted.",
          "Scripts with BOTH a cycle and a redefinition are not generated (the property does not say which error wins). Corpus statement boundaries come from the parser stand-in.",
